@@ -17,7 +17,7 @@ from ..parsing import WRAPPER
 from . import c02
 
 CLASSES = ('plain', 'indexed', 'fmt', 'mini', 'slim', 'slimmini')
-ENTRIES = ('parseStr', 'feed', 'parseFile', 'parseBytes')
+ENTRIES = ('parseStr', 'feed', 'parseFile', 'parseBytes', 'parseFileName')
 FRAGMENTS = ['<', '>', '/', '=', '"', "'", '&', '#', ';', '!', '-', '?', ' ', '\n', '\t', '\r',
              'div', 'a', 'br', 'script', 'style', 'pre', 'code', 'xx', 'id', 'class', 'style=', 'x', '1',
              '<!DOCTYPE html>', '<!doctype', '<!--', '-->', '--', '<?', '?>', '\x00', '\U0001F600', 'é',
@@ -231,6 +231,26 @@ class Check(PropCheck):
                 obj.parseStr(text)
             else:
                 obj.parseStr(data)
+        elif entry == 'parseFileName':
+            # parseFile(<path>): the library opens the file itself with the object's encoding (None = the platform's text mode)
+            try:
+                data = text.encode('utf-8')
+            except UnicodeEncodeError:
+                data = None
+            if data is None or (getattr(obj, 'encoding', 'utf-8') is None and ('\r' in text or not text.isascii())):
+                obj.parseFile(_TextFile(text))      # not storable as UTF-8 / text mode would rewrite it: the file-object form
+            else:
+                import tempfile
+                fd, path = tempfile.mkstemp(prefix='ahp-c03-', suffix='.html')
+                try:
+                    with os.fdopen(fd, 'wb') as fh:
+                        fh.write(data)
+                    obj.parseFile(path)
+                finally:
+                    try:
+                        os.unlink(path)
+                    except OSError:
+                        pass
         else:
             obj.parseFile(_TextFile(text))
 
